@@ -211,7 +211,8 @@ def install_nodes(ctx, ex):
             r = P.resolve_call(R.handler, c)
             if r.kind == 'method' and any(_is_loader(ctx, t) for t in r.targets):
                 kw = dict((k.arg, k.value) for k in c.keywords)
-                v = kw.get('clearJournal', c.args[0] if c.args else None)
+                pname = [t for t in r.targets if _is_loader(ctx, t)][0].params[1:2]
+                v = kw.get(pname[0] if pname else None, c.args[0] if c.args else None)
                 if isinstance(v, ast.Constant) and v.value is True:
                     out.append(n)
     return out
@@ -855,7 +856,7 @@ def _ack_value_ok(ctx, ex, res, n, nxt, info):
                     found = True
                 if other.base is not None and other.off >= 2:
                     return False, 'acknowledged index `%s` is more than one past the last stored entry' % other.key
-                if 'commit' in other.key:
+                if ('self.' + R.commitIndex) in other.key or 'commit_index' in other.key:
                     return False, 'acknowledged index derives from a commit index (`%s`), not from what was stored' % other.key
         if found:
             verdicts.append('last received index + 1')
@@ -1038,11 +1039,12 @@ def r_applied_monotone(ctx):
             # per call site of the loader
             for g, call in P.callers_of(loader):
                 kw = dict((k.arg, k.value) for k in call.keywords)
-                v = kw.get('clearJournal', call.args[0] if call.args else None)
+                cj = loader.params[1] if len(loader.params) > 1 else 'clearJournal'
+                v = kw.get(cj, call.args[0] if call.args else None)
                 install = isinstance(v, ast.Constant) and v.value is True
                 site = '%s (clearJournal=%s)' % (g.qualname, unparse(v) if v is not None else '?')
                 inst2 = 'applied index set from a dump, call site %s' % site
-                init = [ex.tb.literal(U.parse_expr('clearJournal'), install)]
+                init = [ex.tb.literal(U.parse_expr(cj), install)]
                 res = ex.run(init=frozenset(init))
                 grows = bool(res.facts_at(n.id)) and all(oracle.entails(fs, ('le', old, ex.tb.term(st.value))) for fs in res.facts_at(n.id))
                 ctx.tick()
